@@ -261,6 +261,11 @@ pub fn run(ctx: &mut Ctx) {
             };
             dec_one(ctx, &p2, &w2, "mutated", true);
         }
+        match wire::parse(&pb) {
+            Some(ns) if wire::assemble(&ns) == pb => ctx.count("reach:independent-parser-reassembles"),
+            Some(_) => ctx.fail("harness-wire-parser", &format!("dec {} -", gen::hex(&pb)), "independent parser + assembler do not reproduce a valid encoding"),
+            None => ctx.count("independent-parser-gave-up"),
+        }
         for (kind, bytes) in violations(ctx, &pb) {
             if dec_one(ctx, &bytes, &wb, kind, true) == Some(true) && !matches!(kind, "order-swapped" | "unshared-duplicate" | "unused-node") {
                 // accepted: the non-canonical-acceptance oracle inside dec_one has already judged it
@@ -355,6 +360,28 @@ pub fn replay(ctx: &mut Ctx, case: &str) {
         ["cdec", p] => {
             if let Some(p) = gen::parse_hex(p) {
                 cdec_one(ctx, &p, "replay");
+            }
+        }
+        ["cdecv", p] => {
+            // debugging aid: the commit-time DAG decoded from an encoding and its re-encoding
+            if let Some(p) = gen::parse_hex(p) {
+                match codec::decode_commit(&p) {
+                    Ok(Ok(c)) => {
+                        for d in simplicity::dag::DagLike::post_order_iter::<simplicity::dag::InternalSharing>(c.as_ref()) {
+                            eprintln!("{}: {} [{:?} {:?}] : {}", d.index, progs::inner_kind(d.node.inner()), d.left_index, d.right_index, d.node.arrow());
+                        }
+                        eprintln!("re-encoded {}", gen::hex(&c.to_vec_without_witness()));
+                    }
+                    e => eprintln!("{:?}", e.map(|r| r.map(|_| ()).map_err(|e| e.to_string()))),
+                }
+            }
+        }
+        ["wire", p] => {
+            // debugging aid: the node list of an encoding, on stderr
+            if let Some(ns) = gen::parse_hex(p).and_then(|p| wire::parse(&p)) {
+                for (i, n) in ns.iter().enumerate() {
+                    eprintln!("{i}: {n:?}");
+                }
             }
         }
         ["deep", k] => {
